@@ -72,12 +72,12 @@ PH(p) == FoldSet(LAMBDA u, acc : acc + (IF p[u] = "-" THEN 0 ELSE IF p[u] = "f" 
 Hash(x) == (x.n * 7 + (CASE x.ds = "one2one" -> 1 [] x.ds = "absent" -> 2 [] x.ds = "many" -> 3 [] x.ds = "dupone" -> 4 [] x.ds = "twonames" -> 6 [] OTHER -> 5) * 11
             + FoldSet(LAMBDA u, acc : acc + (IF x.p1[u] = "-" THEN 0 ELSE IF x.p1[u] = "f" THEN u + 1 ELSE 5 * (u + 1)), 0, 0..(Period - 1)) * 17
             + PH(x.pa) * 19 + PH(x.pb) * 23 + PH(x.pc) * 29)
-H(x) == Hash(x) \div Mod
-OpOf(x)    == Ops[(H(x) % Len(Ops)) + 1]
-MatchOf(x) == Matchings[((H(x) \div 3) % Len(Matchings)) + 1]
-CardOf(x)  == Cards[((H(x) \div 7) % Len(Cards)) + 1]
-ShapeOf(x) == Shapes[((H(x) \div 11) % Len(Shapes)) + 1]
-BoolOf(x)  == IsCmpOp(OpOf(x)) /\ ((H(x) \div 13) % 3 = 0 \/ ShapeOf(x) \in {"ss", "st"})
+HS(x) == Hash(x) + (Seed % 997) * 131
+OpOf(x)    == Ops[Pick(HS(x), 1, Len(Ops)) + 1]
+MatchOf(x) == Matchings[Pick(HS(x), 2, Len(Matchings)) + 1]
+CardOf(x)  == Cards[Pick(HS(x), 3, Len(Cards)) + 1]
+ShapeOf(x) == Shapes[Pick(HS(x), 4, Len(Shapes)) + 1]
+BoolOf(x)  == IsCmpOp(OpOf(x)) /\ (Pick(HS(x), 5, 3) = 0 \/ ShapeOf(x) \in {"ss", "st"})
 
 LSel == <<Sel(<<Metric("l")>>)>>
 LSelOf(x) == IF x.ds = "twonames" THEN <<Sel(<<Re("__name__", "l|l2", <<"l", "l2">>)>>)>> ELSE LSel
@@ -115,5 +115,5 @@ BinLaw == g.ds = "twonames" \/
         ELSE IF dupR THEN o.why # {}
         ELSE Len(o.vec) = Cardinality({y \in 1..Len(l.vec) : LKeep(l.vec[y].ls, {"a"}) \in sigs(r.vec)})
 
-EmitBin == IF Hash(g) % Mod = Seed % Mod THEN Emit(ScnOf(g)) ELSE TRUE
+EmitBin == IF Pick(Hash(g), 0, Mod) = Seed % Mod THEN Emit(ScnOf(g)) ELSE TRUE
 =============================================================================
